@@ -128,10 +128,14 @@ def run(ck: Check, prog: Program) -> None:
             # the link is made exactly for the responses that were found
             lk = links[0]
             rvar = dotted(lk.ast.targets[0].value)
+            from ..flow import Flow as _FlowK
+            same = {rvar}
+            for al in _FlowK(bcfg).alts(lk, lk.ast.targets[0].value):
+                same |= set(al.names) | ({dotted(al.expr)} if dotted(al.expr) else set())
             found = None
             for g in guard_edges(bcfg, lk):
                 ckd = classify_cond(prog, brel, g.src.ast)
-                if ckd.kind == 'is-none' and ckd.subject == rvar:
+                if ckd.kind == 'is-none' and ckd.subject in same:
                     found = (g.label == 'T') == ckd.negated      # True: runs when the response is NOT None
             if found is not True:
                 p2.append(('responses are linked under the wrong condition', lk.line,
@@ -305,23 +309,29 @@ def run(ck: Check, prog: Program) -> None:
     bfj = prog.func(V20 + '.BatchResponse.from_json')
     ck.functions.add(bfj.qualname)
     fcfg = CFG(bfj, prog)
-    err_rets = [n for n in fcfg.stmt_nodes() if isinstance(n.ast, ast.Return) and isinstance(n.ast.value, ast.Call) and
-                any(k.arg == 'error' for k in n.ast.value.keywords)]
-    okbe = bool(err_rets)
+    from ..flow import Flow as _FlowB
+    ffl = _FlowB(fcfg)
+    err_alts = []
+    for n in fcfg.stmt_nodes():
+        if n.kind == 'stmt' and isinstance(n.ast, ast.Return) and n.ast.value is not None:
+            for al in ffl.alts(n, n.ast.value):
+                if isinstance(al.expr, ast.Call) and any(k.arg == 'error' for k in al.expr.keywords):
+                    err_alts.append((n, al))
+    okbe = bool(err_alts)
     whybe = 'no `return cls(error=...)`'
-    for n in err_rets:
+    for n, al in err_alts:
         conj = set()
-        for g in guard_edges(fcfg, n):
-            ckd = classify_cond(prog, bfj, g.src.ast)
-            if ckd.kind == 'is-none' and (g.label == 'T') != ckd.negated:
+        for c_, pol in al.guards:
+            ckd = classify_cond(prog, bfj, c_)
+            if ckd.kind == 'is-none' and pol != ckd.negated and ckd.subject and 'error' not in ckd.subject.lower():
                 conj.add('id-none')
-            if ckd.kind == 'is-unset' and (g.label == 'T') == ckd.negated:
+            if ckd.kind == 'is-unset' and pol == ckd.negated:
                 conj.add('error-set')
-            if ckd.kind == 'isinstance' and 'dict' in ckd.detail and (g.label == 'T') != ckd.negated:
+            if ckd.kind == 'isinstance' and 'dict' in ckd.detail and pol != ckd.negated:
                 conj.add('object')
         if not {'id-none', 'error-set', 'object'} <= conj:
             okbe = False
-            whybe = f'`{norm(n.ast)[:60]}` is guarded by {sorted(conj)} only'
+            whybe = f'`{norm(al.expr)[:60]}` is returned under {sorted(conj)} only'
     ck.ob('ERROR-RAISED', 'BatchResponse.from_json: the batch-level error form is an object with null id AND an error member', okbe)
     if not okbe:
         ck.finding('ERROR-RAISED', bfj.qualname, 'batch-level error form recognised under another condition', bfj.module.rel, bfj.node.lineno,
